@@ -23,8 +23,10 @@ NameOf(cfg) == CASE cfg.nameflag = "valid" -> "pkgx"
                  [] cfg.nameflag = "space" -> "calc 2"
                  [] cfg.nameflag = "slash" -> "sub/pkgx"          \* (the directory sub exists)
                  [] cfg.nameflag = "underscore" -> "_x1"
+                 [] cfg.nameflag = "supnum" -> "v2sup"            \* v followed by SUPERSCRIPT TWO: a number (No), not a digit (Nd)
+                 [] cfg.nameflag = "unidigit" -> "x3arabic"       \* x followed by ARABIC-INDIC DIGIT THREE: a digit (Nd), valid in Go
                  [] OTHER -> IF cfg.input = "validkw" THEN "type" ELSE "calc"
-NameValid(n) == n \in {"pkgx", "calc", "_x1"}
+NameValid(n) == n \in {"pkgx", "calc", "_x1", "x3arabic"}
 
 Outcome(cfg) ==
   IF cfg.mode \in {"help", "version"} THEN O(TRUE, FALSE, "none")
